@@ -1,6 +1,7 @@
 /-
   C12 — Building then loading a header preserves its tags and is spec-well-formed.
 -/
+import Mb2.Props.Builders
 import Mb2.Build
 import Mb2.Props.C06
 import Mb2.Props.C10
